@@ -234,6 +234,12 @@ def check(ctx, rep):
             a0 = e.d["args"][0] if e.d["args"] else None
             J = a0[1] if isinstance(a0, tuple) and a0[0] == "attr" and a0[2] == FNF else None
             link = [c for c in p.calls() if J is not None and q.recv(c) == ("attr", J, FUTF) and dfut in c.d["args"]]
+            if ok and len(link) == 1:
+                # stdlib futures run their callbacks in registration order: whatever is attached to the delegate
+                # future before the release callback (the caller's future and, through it, the caller's own
+                # callbacks) runs while the slot still counts as in flight
+                first = decr[0][0].seq < link[0].seq and not any(r.seq < decr[0][0].seq for r in regs if r is not decr[0][0])
+                rep.ob("R-COUNT", "hand-over: the release callback is the first one on the delegate future", first, "the delegate future is given to the job's future (or gets another callback) before the callback that decrements the in-flight counter is registered: when the delegate completes, the caller's callbacks run first and a slow or blocking one keeps the slot occupied although the callable is done, so a queued job is not handed over", where_of(link[0].fn, link[0].node), trace_of(p, link[0].seq))
             rep.ob("R-COUNT", "hand-over: the job's future mirrors this hand-over's delegate future", len(link) == 1, "the future of the job whose function was submitted must receive the future returned by that delegate submit (found %d such calls)" % len(link), where_of(e.fn, e.node), trace_of(p, e.seq))
     rep.require(nho >= 1, "throttle hand-over: delegate submit not found on the worker's paths")
     rep.require(len(cbfns) == 1, "throttle hand-over: decrement callback not identified (%s)" % sorted(cbfns))
